@@ -98,6 +98,24 @@ def read(cfg, crate, rep):
     flat = set().union(*callers.values()) if callers else set()
     ok_callers = {KP + "::serialize_pem"} | want   # the export accessors may be written in terms of each other
     rep.ob("C19.read", "%s|accessor-callers" % cfg, flat <= ok_callers, "inside rcgen the export accessors are used only by serialize_pem (and by each other)", expected=sorted(ok_callers), found=sorted(flat))
+    # the export accessors hand the document to the caller and keep no second copy: no store into shared / interior-mutable
+    # state (a memo slot, a static, a thread-local) happens on their behalf -- another accessor could read it back
+    import re as _re
+    store = _re.compile(r"(OnceLock|OnceCell|LazyLock|LazyCell|Mutex|RwLock|RefCell|Cell|LocalKey|AtomicPtr)\b.*::(get_or_init|get_or_try_init|set|replace|insert|lock|write|borrow_mut|with|with_borrow_mut|store|swap|get_mut_or_init|force)$")
+    kept = []
+    for fn_ in sorted(want | {KP + "::serialize_pem"}):
+        if fn_ not in crate.bodies:
+            continue
+        I_ = Interp(crate)
+        try:
+            I_.run_fn(fn_)
+        except Exception as e:      # fail closed
+            kept.append("%s: not analysable (%s)" % (fn_, e))
+            continue
+        for c_, a_, n_, cond_, f_ in I_.calls:
+            if store.search(c_):
+                kept.append("%s: %s" % (fn_.split("::")[-1], c_))
+    rep.ob("C19.read", "%s|no-retention" % cfg, not kept, "the private-key export accessors store nothing into shared or interior-mutable state", found=kept)
     # no struct literal copies the field elsewhere: KeyPair literals are the only writers
     # derived impls on KeyPair (Clone/Debug/...) would copy or print the document
     derived = [im.get("trait") for im in crate.impls if im.get("self_adt") == KP and im.get("derived")]
